@@ -241,6 +241,67 @@ def inputs_for(state, tier):
     return out
 
 
+# --------------------------------------------------- anti-amplification budget part
+def budget_case(args):
+    """A server whose 3x budget for the unvalidated client address is drained, topped up by a
+    tiny garbage datagram of length L, then made to close by a protected packet arriving from
+    ANOTHER address: the closing packet has to be built within the remaining budget."""
+    L, trig = args
+    bot = peerbot.PeerBot("server", cut=("steps", 1), cfg={"chain": "bigchain"})
+    E = bot.E
+    out = {"L": L, "trig": trig, "viol": None, "budget": None, "closed": None}
+    try:
+        for _ in range(12):          # PTO retransmissions until the budget is exhausted
+            t = E.conn.get_timer()
+            if t is None or t == E.conn._close_at:
+                break
+            n0 = len(E.sent_packets)
+            bot.timer()
+            if len(E.sent_packets) == n0 and _ > 3:
+                break
+        if L:
+            # a caller may hand over several received datagrams before it transmits: the top-up
+            # datagram is delivered without an intermediate datagrams_to_send()
+            E.conn.receive_datagram(bytes([0x40]) + bytes(L - 1), bot.peer_addr, now=bot.w.now)
+        path = E.conn._network_paths[0]
+        out["budget"] = 3 * path.bytes_received - path.bytes_sent
+        frames = {"handshake_done": b"\x1e", "unknown": b"\x21", "reserved_stream": v(8) + v(3) + v(0) + v(0),
+                  "crypto_garbage": v(6) + v(0) + v(4) + b"\x63\x00\x00\x00"}[trig]
+        pkt = bot.build(None, epoch="handshake", payload=frames)
+        bot.feed(pkt, addr=("10.7.7.7", 7777))
+        out["closed"] = E.conn._state.name
+        bot.drive_to_end()
+    except core.HarnessError:
+        raise
+    except Exception as e:  # noqa
+        entry, inner = classify(e)
+        if inner is None:
+            raise
+        out["viol"] = ({"monitor": "api_exception", "exc": type(e).__name__, "where": inner, "entry": entry,
+                        "role": "server", "input": "close_with_small_budget"},
+                       "%s: %s in %s (API entry %s): server closing with %r bytes of anti-amplification "
+                       "budget left (top-up datagram of %d bytes, trigger %s from another address)"
+                       % (type(e).__name__, e, inner, entry, out["budget"], L, trig))
+    return out
+
+
+def run_budget(ctx):
+    tasks = [(L, trig) for L in range(0, 44) for trig in ("handshake_done", "unknown", "crypto_garbage")]
+    res = core.pmap(budget_case, tasks, chunksize=4)
+    budgets = set()
+    closed = 0
+    for r in res:
+        budgets.add(r["budget"])
+        closed += 1 if (r["closed"] in ("CLOSING", "DRAINING", "TERMINATED") or r["viol"]) else 0
+        if r["viol"]:
+            ctx.violation(r["viol"][0], r["viol"][1], {"part": "budget", "L": r["L"], "trig": r["trig"]})
+    ctx.part("server_small_budget_close", evaluations=len(res), states=len(res), transitions=len(res),
+             distinct_nontrivial=len(budgets), closed=closed,
+             budgets="%s..%s" % (min(b for b in budgets if b is not None), max(b for b in budgets if b is not None)))
+    if closed < len(res) // 2:
+        raise core.HarnessError("budget part: only %d of %d cases closed" % (closed, len(res)))
+
+
 # ----------------------------------------------------------------------- running
 def classify(exc):
     tb = traceback.extract_tb(exc.__traceback__)
@@ -406,6 +467,7 @@ def run(ctx):
         outcomes.add((st, "ignored" if ps["ignored"] else "-"))
     if len(outcomes) < 6:
         raise core.HarnessError("vacuous: %d distinct outcomes" % len(outcomes))
+    run_budget(ctx)
     # hostile TLS messages with valid MACs from a key-holding QUIC-level adversary
     from checks import c05_tls
 
@@ -429,6 +491,13 @@ def run(ctx):
 
 def replay(ctx, obj):
     rp = obj["replay"]
+    if rp.get("part") == "budget":
+        r = budget_case((rp["L"], rp["trig"]))
+        print(r)
+        if r["viol"]:
+            print("VIOLATION property=C05 replay=(replayed): %s" % r["viol"][1])
+            return 1
+        return 0
     if rp.get("part") == "tls":
         from checks import c05_tls
 
